@@ -147,8 +147,8 @@ def shapes(tier):
     for config in ("none", "optimize", "incremental"):
         for seq in seqs:
             for opt, wk in ((False, False), (True, False), (False, True)) + (((True, True),) if thorough else ()):
-                if config != "none" and (opt and wk):
-                    continue
+                if (config != "none" or len(seq) > 3) and (opt and wk):
+                    continue  # optional task + workers + long sessions: path count beyond the bound
                 mc = 3 if config != "incremental" else 4
                 if len(seq) > 3:
                     mc += 1
